@@ -66,6 +66,9 @@ PROPS = {
              "source by the regenerated channel capacity; "
              "non-trivial = handshake completed; distinct = distinct case line",
         trusted=COMMON_TB + ["verif hook listener/canary/verif_hooks_linux.go",
+                             "hand-off model (HT.Handoff): the goroutines' steps are atomic at the granularity buffer check / park / "
+                             "channel operation, Go's channel semantics (a non-blocking send succeeds iff a receiver is parked or the "
+                             "buffer has room) are assumed; the ring buffer's own lack of synchronisation is outside the model",
                              "modelled, not verified: Go scheduler (handler goroutine run to completion at its wake-up), "
                              "ring-buffer data race between receive loop and handler, decoded-port protocol handlers"],
         assumptions=["server ISS boundary values are reached by rebasing the connection's send sequence space through "
@@ -266,7 +269,10 @@ PROPS["C04"] = dict(
                          "scripted in-memory connection instead of a kernel socket (segment = what one Read returns)",
                          "modelled, not verified: bufio/textproto/net/mail/net/http library behaviour below the calls the "
                          "handlers make (compared through the runs); telnet line editing beyond printable ASCII, CR, LF; "
-                         "smtp STARTTLS and header blocks beyond simple 'Key: value' lines are outside the model (oracle only)"],
+                         "smtp STARTTLS and header blocks beyond simple 'Key: value' lines are outside the model (oracle only)",
+                         "ldap model: BER identifiers with high tag numbers, indefinite lengths, more than four length bytes and the "
+                         "StartTLS extended request are outside the model and never sent by model-compared cases; message ids below 2^63",
+                         "one-request services: request targets are compared as sent (no URL re-serialisation differences in the generated targets)"],
     assumptions=["rate limiters never refuse in these runs (one datagram per source address): a datagram the limiter drops is "
                  "C10's subject, not C04's",
                  "lines shorter than bufio.Scanner's 64 KiB token limit (redis)"],
